@@ -1054,6 +1054,7 @@ class TokenizerCore:
             elif token_type == TokenType.BIT_STRING:
                 base = 2
             elif token_type == TokenType.HEREDOC_STRING:
+                line, col = self._line, self._col
                 self._advance()
 
                 if self._char == end:
@@ -1074,6 +1075,8 @@ class TokenizerCore:
                         self._advance(-1)
 
                     self._advance(-len(tag))
+                    # Moving backwards doesn't undo the line breaks counted while scanning the tag
+                    self._line, self._col = line, col
                     self._add(self.heredoc_string_alternative)
                     return True
 
